@@ -98,6 +98,12 @@ def vtt_no_absolute(ux: int, ue: int, has_e: bool, has_p: bool, has_w: bool, has
     pre: 0 <= ux < 5 and 0 <= ue < 5
     post: _ == ""
     """
+    from harness.csbuild import StableHash
+    with StableHash():
+        return _vtt_no_absolute(ux, ue, has_e, has_p, has_w, has_h, rel, fit)
+
+
+def _vtt_no_absolute(ux, ue, has_e, has_p, has_w, has_h, rel, fit):
     lay = _layout(ux, (ux + 1) % 5, ue, has_e, has_p, (ue + 2) % 5)
     w = WebVTTWriter(relativize=rel, video_width=640 if has_w else None, video_height=360 if has_h else None, fit_to_screen=fit)
     try:
@@ -203,6 +209,12 @@ def vtt_sequence(first_hd: bool, second: int, same_writer_twice: bool) -> str:
     pre: 0 <= second < 4
     post: _ == ""
     """
+    from harness.csbuild import StableHash
+    with StableHash():
+        return _vtt_sequence(first_hd, second, same_writer_twice)
+
+
+def _vtt_sequence(first_hd, second, same_writer_twice):
     lay = Layout(origin=Point(Size(64, UnitEnum.PIXEL), Size(36, UnitEnum.PIXEL)), extent=Stretch(Size(320, UnitEnum.PIXEL), Size(72, UnitEnum.PIXEL)))
     a = WebVTTWriter(video_width=1280 if first_hd else 640, video_height=720 if first_hd else 360)
     a._convert_positioning(lay)
